@@ -39,7 +39,7 @@ use std::sync::{Arc, Mutex};
 #[cfg(not(roughenough_verif))]
 use std::{env, io, thread};
 #[cfg(roughenough_verif)]
-use verif_std::{env, io, process, sync::{Arc, Mutex}, thread};
+use verif_std::{env, io, process, sync::*, thread, *};
 
 use roughenough::config;
 use roughenough::config::ServerConfig;
